@@ -81,6 +81,14 @@ class Recorder(object):
         self.calls = []
 
 
+class _Helper(object):
+    def __init__(self, record):
+        self.record = record
+
+    def meth(self, *args, **kwargs):
+        return self.record(*args, **kwargs)
+
+
 def make_replacement(kind, tag, rec, fut=False):
     """returns (patch kwargs, expected-result function of the received (args, kwargs)); with ``fut`` the
     replacement's result is itself a future object (a handle the caller is meant to receive as it is)"""
@@ -103,10 +111,8 @@ def make_replacement(kind, tag, rec, fut=False):
     if kind == "lambda":
         return {"new": lambda *args, **kwargs: record(*args, **kwargs)}, result
     if kind == "bound_method":
-        class Other(object):
-            def meth(self, *args, **kwargs):
-                return record(*args, **kwargs)
-        return {"new": Other().meth}, result
+        # the same method of a different helper object every time (one class for the whole process)
+        return {"new": _Helper(record).meth}, result
     if kind == "callable_object":
         class Obj(object):
             def __call__(self, *args, **kwargs):
